@@ -1749,7 +1749,7 @@ func pureExternal(name string) bool {
 	case "fmt.Sprintf", "fmt.Sprint", "fmt.Sprintln", "fmt.Errorf", "os.IsNotExist", "os.IsExist",
 		"(time.Time).Equal", "(time.Time).After", "(time.Time).Before", "(time.Time).AddDate", "(time.Time).Add",
 		"(time.Time).Local", "(time.Time).UTC", "(time.Time).Format", "(time.Time).IsZero", "(time.Time).Sub",
-		"(time.Time).Year", "(time.Time).Month", "(time.Time).Day", "(time.Time).Location", "time.Date", "time.Parse",
+		"(time.Time).Year", "(time.Time).Month", "(time.Time).Day", "(time.Time).Location", "(time.Time).Date", "strconv.FormatFloat", "time.Date", "time.Parse",
 		"(time.Duration).Hours", "regexp.MatchString", "sort.Strings", "sort.Sort", "sort.Stable",
 		"github.com/aquilax/truncate.Truncate", "(*os.File).Close", "os.Stat":
 		return true
